@@ -6,6 +6,42 @@ ARGS = [((), {}), ((1,), {}), ((1, 2), {"k": 3}), (("x",), {"y": None}), ((-1,),
         ((), {"a": 1, "b": 2}), ((), {"a": 2})]
 
 
+class InitFails(Exception):
+    pass
+
+
+TRAP = {"mode": None}     # "fail": every __init__ raises;  "clear": every __init__ first clears ALL true singletons (re-entrancy)
+
+
+def normalise(ops, obs):
+    """CF (the constructor raises) and CR (the constructor clears every singleton while it runs) in terms of the plain
+    operations, by the liveness the STATEMENT implies (computed from the operations alone):
+      on a live class neither runs __init__, so both are plain constructions;
+      CF on a class that is not live changes nothing and must raise;  CR there is `clear all` followed by the construction.
+    Returns (ops', obs', messages)."""
+    live = set()
+    nops, nobs = [], []
+    for i, (op, o) in enumerate(zip(ops, obs)):
+        if op[0] == "X":
+            live = set() if op[1] is None else live - {op[1]}
+            nops.append(op)
+            nobs.append(o)
+        elif op[0] == "C" or op[1] in live:
+            if o[0] == "initfails":
+                return nops, nobs, [f"op {i} {op}: class {op[1]} is live, so __init__ must not run - yet it ran (and raised)"]
+            live.add(op[1])
+            nops.append(["C", op[1], op[2]])
+            nobs.append(o)
+        elif op[0] == "CF":
+            if o[0] != "initfails":
+                return nops, nobs, [f"op {i} {op}: __init__ raises and class {op[1]} is not live, yet the construction returned {o}"]
+        else:   # CR on a class that is not live
+            live = {op[1]}
+            nops += [["X", None], ["C", op[1], op[2]]]
+            nobs += [["none"], o]
+    return nops, nobs, []
+
+
 def make_classes(parents, falsy=None):
     """parents[i] = index of the parent class of class i, or None.  All use metaclass TrueSingleton.
     falsy[i] in (0, 1, 2): root class i is an ordinary / empty-container-like (__len__ == 0) / __bool__-False class"""
@@ -14,6 +50,11 @@ def make_classes(parents, falsy=None):
     for i, p in enumerate(parents):
         if p is None:
             def __init__(self, *a, **k):
+                if TRAP["mode"] == "fail":
+                    raise InitFails()
+                if TRAP["mode"] == "clear":
+                    from edgegraph.structure import singleton as _sg
+                    _sg.clear_true_singleton()
                 if not hasattr(self, "_vlog"):
                     self._vlog = []
                 self._vlog.append((type(self), a, k))
@@ -35,7 +76,7 @@ class History(Leg):
     imports = "From EG Require Import Base TrueSingle."
     checkfn = "tcheck"
     case_type = "list top * list (option (nat * list (nat * nat)))"
-    rule = ("random histories (len 3-24) of Construct(class,args)/Clear(class)/Clear(all) over 2-4 classes incl. "
+    rule = ("random histories (len 3-24) of Construct(class,args) (1 in 10 with an __init__ that raises, 1 in 10 with an __init__ that clears all singletons while it runs)/Clear(class)/Clear(all) over 2-4 classes incl. "
             "parent/child pairs, 2 in 5 root classes with falsy instances (__len__ == 0 or __bool__ False); non-trivial = contains a clear followed by a re-construction; distinct = distinct op list")
     quick_n = 600
     thorough_n = 20000
@@ -50,7 +91,8 @@ class History(Leg):
             for _ in range(rng.randint(3, 24)):
                 r = rng.random()
                 if r < 0.62:
-                    ops.append(["C", rng.randrange(k), rng.randrange(len(ARGS))])
+                    # CF: __init__ raises;  CR: __init__ clears all singletons while it runs
+                    ops.append([rng.choice(["C"] * 8 + ["CF", "CR"]), rng.randrange(k), rng.randrange(len(ARGS))])
                 elif r < 0.9:
                     ops.append(["X", rng.randrange(k)])
                 else:
@@ -66,10 +108,14 @@ class History(Leg):
         obs = []
         try:
             for op in case["ops"]:
-                if op[0] == "C":
+                if op[0] in ("C", "CF", "CR"):
                     a, k = ARGS[op[2]]
+                    TRAP["mode"] = {"CF": "fail", "CR": "clear"}.get(op[0])
                     try:
                         inst = classes[op[1]](*a, **k)
+                    except InitFails:
+                        obs.append(["initfails"])
+                        continue
                     except Exception as e:
                         obs.append(["raise", type(e).__name__])
                         continue
@@ -89,13 +135,21 @@ class History(Leg):
                         continue
                     obs.append(["none"] if r is None else ["other"])
         finally:
+            TRAP["mode"] = None
             singleton.clear_true_singleton()
         return obs
 
     def oracle(self, case, obs):
+        nops, nobs, msgs = normalise(case["ops"], obs)
+        if msgs:
+            return msgs
+        return self._oracle(nops, nobs)
+
+    def _oracle(self, ops, obs):
         live = {}
         fresh = 0
         msgs = []
+        case = {"ops": ops}
         for i, (op, o) in enumerate(zip(case["ops"], obs)):
             if o[0] == "raise":
                 msgs.append(f"op {i} {op} raised {o[1]}")
@@ -131,8 +185,9 @@ class History(Leg):
         return msgs
 
     def term(self, case, obs):
+        nops, obs, _ = normalise(case["ops"], obs)
         ops = []
-        for op in case["ops"]:
+        for op in nops:
             if op[0] == "C":
                 ops.append(f"Construct {op[1]} {op[2]}")
             else:
@@ -159,7 +214,7 @@ class History(Leg):
         for i, op in enumerate(ops):
             if op[0] == "X":
                 for later in ops[i + 1:]:
-                    if later[0] == "C" and (op[1] is None or op[1] == later[1]):
+                    if later[0] in ("C", "CF", "CR") and (op[1] is None or op[1] == later[1]):
                         return True
         return False
 
@@ -170,7 +225,7 @@ class History(Leg):
 
     def stats(self, case, obs, acc):
         for op in case["ops"]:
-            k = "Construct" if op[0] == "C" else ("ClearAll" if op[1] is None else "ClearOne")
+            k = {"C": "Construct", "CF": "ConstructInitRaises", "CR": "ConstructInitClearsAll"}.get(op[0]) or ("ClearAll" if op[1] is None else "ClearOne")
             acc[k] = acc.get(k, 0) + 1
         acc["histories_with_subclass"] = acc.get("histories_with_subclass", 0) + (1 if any(p is not None for p in case["parents"]) else 0)
 
